@@ -134,6 +134,42 @@ Definition d_hist_post (a : args) : list (list Z) := [[zb (post_ok a)]].
 Definition d_rt_post1 (a : args) : list (list Z) :=
   [[zb (match a with [[v; r]] => (v =? 1)%Z && (r =? 1)%Z | _ => false end)]].
 
+(* c16.bbop.spec : BooleanArray::bitwise_bin_op_mut.
+   args [lhs values] [lhs validity | empty = no null buffer] [rhs values] [rhs validity | empty] [mode; w; bit offset]
+   mode 0: the values buffer is uniquely owned and starts at its allocation -> Ok, computed in place, validity = union;
+   mode 1 (a clone is alive) / 2 (buffer sliced at a byte offset): the kernel declines and the array handed
+   back in Err is the caller's array, values AND validity untouched; the clone kept alive is untouched too. *)
+Definition d_bbop_spec (a : args) : list (list Z) :=
+  let lb := bools_of (arg 0 a) in let ln := arg 1 a in
+  let rb := bools_of (arg 2 a) in let rn := arg 3 a in
+  let mode := zn (arg 4 a) 0 in let w := zn (arg 4 a) 1 in
+  let len := List.length lb in
+  if (mode =? 0)%nat then
+    let vals := map (fun p : bool * bool => bitop w (fst p) (snd p)) (combine lb rb) in
+    let lv := match ln with [] => repeat true len | _ => bools_of ln end in
+    let rv := match rn with [] => repeat true len | _ => bools_of rn end in
+    let has_null := existsb negb lv || existsb negb rv in
+    [ [1%Z]; zs_of_bools vals;
+      (if has_null then zs_of_bools (map (fun p : bool * bool => andb (fst p) (snd p)) (combine lv rv)) else []); [] ]
+  else
+    [ [2%Z]; zs_of_bools lb; zs_of_bools (bools_of ln);
+      (if (mode =? 1)%nat then zs_of_bools lb ++ (-1)%Z :: zs_of_bools (bools_of ln) else []) ].
+
+(* c16.shrink.spec : Buffer::shrink_to_fit of a (claimed) buffer.
+   args [bytes] [esz; off; l; claim; keep_other; custom]: capacity n = |bytes|, reservation n when claimed;
+   the handle is slice_with_length(off, l); it reallocates to (if l = 0 then 0 else off + l) bytes iff that is
+   smaller than n, the Arc is unique and the allocation is a standard one; the reservation follows the capacity.
+   output [pool.used(); capacity] [visible bytes] [pool.used() after all handles are dropped = 0] *)
+Definition d_shrink_spec (a : args) : list (list Z) :=
+  let bytes := arg 0 a in let h := arg 1 a in
+  let off := zn h 1 in let l := zn h 2 in
+  let claim := zn h 3 in let keep := zn h 4 in let custom := zn h 5 in
+  let n := List.length bytes in
+  let want := if (l =? 0)%nat then 0%nat else (off + l)%nat in
+  let cap := if (want <? n)%nat && (keep =? 0)%nat && (custom =? 0)%nat then want else n in
+  [ [ (if (claim =? 1)%nat then Z.of_nat cap else 0%Z); Z.of_nat cap ]; firstn l (skipn off bytes); [0%Z] ].
+
 Local Open Scope string_scope.
 Definition ops_C16 : list (string * opfun) :=
-  [ ("c16.hist", d_hist); ("c16.hist.post", d_hist_post); ("c16.ffi_rt.post1", d_rt_post1) ].
+  [ ("c16.hist", d_hist); ("c16.hist.post", d_hist_post); ("c16.ffi_rt.post1", d_rt_post1);
+    ("c16.bbop.spec", d_bbop_spec); ("c16.shrink.spec", d_shrink_spec) ].
